@@ -44,6 +44,8 @@ RULE = (
     "when the centre bag (resp. sum bag) of the position is non-empty; NaN-expectation cases are counted separately."
 )
 
+COVNAMES = ('fwhm', 'semimajor_sigma', 'semiminor_sigma', 'orientation', 'eccentricity', 'elongation', 'ellipticity',
+            'covar_sigx2', 'covar_sigy2', 'covar_sigxy', 'cxx', 'cyy', 'cxy')
 MAD_K = 1.482602218505602   # 1 / Phi^-1(3/4)
 
 SCALARS = ['sum', 'sum_err', 'sum_aper_area', 'center_aper_area', 'min', 'max', 'mean', 'median', 'mode', 'std', 'mad_std',
@@ -263,6 +265,11 @@ def oracle_position(data, err, mask, bkg, Wc, Ws, box, sid):
             sxy = math.fsum((vals * dx * dy).tolist()) / m00
             out['mu_raw'] = (sx2 * m00, sy2 * m00, sxy * m00)
             det = sx2 * sy2 - sxy * sxy
+            if abs(det) <= 1e-11 * cond * (abs(sx2 * sy2) + sxy * sxy + 1e-300):
+                # rank-deficient pixel set (e.g. two pixels): the sign of det is decided by rounding; both outcomes of
+                # the 'det < 0 -> NaN' rule are accepted, the regularised value is the reference
+                out['det_amb'] = True
+                det = 0.0
             if det < 0:
                 sx2 = sy2 = sxy = nan
             else:
@@ -410,6 +417,8 @@ def eval_combo(case, counter=None):
                 ok = math.isfinite(g) and abs(g * g - e * e) <= 1e-7 * o.get('cond', 1.0)
             else:
                 ok = _cmp(g, e, T.get(name, 0.0))
+            if not ok and o.get('det_amb') and math.isnan(g) and name in COVNAMES:
+                ok = True
             if not ok:
                 if name in ('xcentroid', 'ycentroid'):
                     off = (box[0] if name == 'xcentroid' else box[2])
@@ -435,11 +444,11 @@ def eval_combo(case, counter=None):
         # covariance matrix / eigenvalues / moments
         cv = _arr(got['covariance'])[k]
         for (a_, b_), nme in (((0, 0), 'covar_sigx2'), ((1, 1), 'covar_sigy2'), ((0, 1), 'covar_sigxy'), ((1, 0), 'covar_sigxy')):
-            if not _cmp(float(cv[a_, b_]), E[nme], T.get(nme, 0.0)):
+            if not _cmp(float(cv[a_, b_]), E[nme], T.get(nme, 0.0)) and not (o.get('det_amb') and math.isnan(float(cv[a_, b_]))):
                 bad('stat/covariance-matrix', f'pos={pos[k]} [{a_},{b_}]={float(cv[a_, b_])!r} expected {E[nme]!r}', k)
                 break
         ev = _arr(got['covariance_eigvals'])[k]
-        if 'eig' in o and o['eig'][1] >= 0:
+        if 'eig' in o and o['eig'][1] >= 0 and not (o.get('det_amb') and np.all(np.isnan(ev))):
             if not (_cmp(float(ev[0]), o['eig'][0], T['covar_sigx2'] * 4) and _cmp(float(ev[1]), o['eig'][1], T['covar_sigx2'] * 4)):
                 bad('stat/covariance_eigvals', f'pos={pos[k]} got {ev.tolist()} expected {o["eig"]}', k)
         elif not o['cen'] and not np.all(np.isnan(ev)):
@@ -523,7 +532,7 @@ def eval_combo(case, counter=None):
 
     # scalar (single-position) objects == row of the multi-position object; slicing
     if case.get('extras'):
-        for k in (0, 2, n - 1):
+        for k in sorted({0, min(2, n - 1), n - 1}):
             try:
                 a1 = make_aperture(kind, p, pos[k]) if not case.get('sky') else aper_in[k]
                 s1 = ApertureStats(data, a1, error=err, mask=mask, wcs=wcs, sigma_clip=make_sigclip(sid), sum_method=method,
@@ -598,7 +607,7 @@ def run(ctx):
                                         # pairwise-plus design: keep a sixth of the product, all of the no-clip/no-bkg plane
                                         keep = (ii + mi + ei + ai + qi + ci + bi + sky) % 6 == 0 or (ci == 0 and bi == 0 and not sky and ei == 0)
                                     else:
-                                        keep = (ii + 2 * mi + 3 * ei + ai + 5 * qi + 7 * ci + 11 * bi + 13 * sky) % 24 == 0 or \
+                                        keep = (ii + 2 * mi + 3 * ei + ai + 5 * qi + 7 * ci + 11 * bi + 13 * sky) % 16 == 0 or \
                                                (ci == 0 and bi == 0 and not sky and ei == 0 and (ii + mi) % 2 == 0 and qi in (0, 1) and ii < 2)
                                     if not keep:
                                         continue
